@@ -18,6 +18,18 @@ Theorem C02_reencode : forall c v rest, value_reader_no_len c = false -> wf_dval
 Proof. exact value_reencode. Qed.
 Print Assumptions C02_reencode.
 
+(* "equal value": the encoding determines the value.  Two well-formed values, each followed by
+   any bytes, that yield the same byte string are the same value followed by the same bytes;
+   in particular no value's encoding is a proper prefix of another's *)
+Theorem C02_injective : forall v1 v2 r1 r2, wf_dval v1 -> wf_dval v2 ->
+  enc_dval v1 ++ r1 = enc_dval v2 ++ r2 -> v1 = v2 /\ r1 = r2.
+Proof. exact value_enc_injective. Qed.
+Print Assumptions C02_injective.
+Theorem C02_prefix_free : forall v1 v2 r, wf_dval v1 -> wf_dval v2 ->
+  enc_dval v1 = enc_dval v2 ++ r -> v1 = v2 /\ r = [].
+Proof. exact value_enc_not_prefix. Qed.
+Print Assumptions C02_prefix_free.
+
 (* the data of an opaque value: the signature-driven reader returns exactly the bytes it consumed.
    Any well-formed signature, containers of zero-width elements included ("[v]", "[()]", "{v()}" ...) *)
 Theorem C02_opaque_data : forall c v t fuel rest, value_reader_no_len c = false ->
